@@ -364,6 +364,120 @@ def run(rep, tier):
            "(at the first binding or nested block): a later pattern that binds the target as an Assertion / Evidence / Proposition is never seen",
            bk.file + ":%d" % (bk.term(sorted(early)[0]).get("ln", bk.line) if early else bk.line))
 
+    # the plan itself declares the kind of a handle it creates (CREATE ASSERTION ?a ... UPDATE ?a ...): the immutable-payload
+    # and structural guards must also run with that kind, not only with the kinds the statement's own WHERE names
+    bkind = KML + "::BoundKind"
+    creating = [v["name"] for v in mc["variants"] if v["fields"] and any(
+        fd["name"] == "handle" for a in v["fields"][0]["adts"] if a.startswith(AST + "::") and prog.adts.get(a, {}).get("kind") == "Struct"
+        for fd in prog.adts[a]["variants"][0]["fields"])]
+    if len(creating) < 6:
+        raise CheckerFault("anchor missing: record-creating clause variants (found %s)" % creating)
+    gif = {f.id for f in prog.fns.values() if f.path in (KML + "::guard_immutable_field", KML + "::guard_structural_mutation")}
+    if len(gif) < 2:
+        raise CheckerFault("anchor missing: guard_immutable_field / guard_structural_mutation")
+
+    def kind_arms(g):
+        """creating variants in whose arm g builds a BoundKind value"""
+        out = set()
+        for v, blocks in arm_regions(g, MC).items():
+            for b in blocks:
+                for st in g.stmts(b):
+                    if st[0] == "A" and st[2]["k"] == "agg" and (st[2]["a"].get("def") or "") == bkind:
+                        out.add(v)
+        return out
+    producers = {}
+    for g in prog.fns.values():
+        if g.crate == "anda_kip" and g.path.startswith(KML + "::"):
+            ka = kind_arms(g)
+            if ka:
+                producers[g.id] = ka
+    reach_vp = prog.reach_set([vp.id]) | {vp.id}
+    used = {gid: ka for gid, ka in producers.items() if gid in reach_vp}
+    covered = set().union(*used.values()) if used else set()
+    # the produced kind must reach the guards: some function validate_plan reaches both obtains a kind from a producer
+    # (or is one) and calls into the guards with a value derived from it
+    feeds = False
+    for fid in reach_vp:
+        g = prog.fns.get(fid)
+        if g is None:
+            continue
+        def _hands_producer(e):
+            for a in e.args:
+                k_ = a.get("k") if isinstance(a, dict) else None
+                if k_ and "fn" in k_ and (k_["fn"].get("rid") in used or k_["fn"].get("id") in used):
+                    return True         # `.and_then(declared_kind_of)`: the producer is handed over as a fn item
+            return False
+        srcs = [e.dest.l for e in g.calls() if e.dest is not None and (set(prog.callee_nodes(e)) & set(used) or _hands_producer(e))]
+        if fid in used:
+            srcs += [st[1]["l"] for b in g.live_blocks() for st in g.stmts(b)
+                     if st[0] == "A" and st[2]["k"] == "agg" and (st[2]["a"].get("def") or "") == bkind]
+        if not srcs:
+            continue
+        der = g.derived_locals(srcs, mut_args=True)
+        for e in g.calls():
+            if any(core.op_place(a) is not None and core.op_place(a).l in der for a in e.args) and (
+                    set(prog.callee_nodes(e)) & gif or any(prog.reach_set([n]) & gif for n in prog.callee_nodes(e) if n in prog.fns)):
+                feeds = True
+    missing = [v for v in creating if v not in covered]
+    rep.ob("R16.4", "plan-declared-kind-guarded|validate_plan", bool(used) and feeds and not missing,
+           "an UPDATE whose target handle is created by the same plan is guarded only with the kinds its own WHERE names: no function reachable from "
+           "validate_plan derives a kind from the creating clause (%s) and hands it to the immutable-payload / structural guards "
+           "- CREATE ASSERTION ?a {..} UPDATE ?a SET FIELDS {confidence: 1.0} is accepted" % (", ".join(missing) or "kind never reaches a guard"),
+           vp.file + ":%d" % vp.line)
+
+    # ------------------------------------------------------------------ R16.6 every handle position is resolved
+    rep.rule("R16.6", "handle resolution is complete (type-directed): every field of every mutation clause whose type can spell a ?handle reference "
+             "(ElementRef, MutationValue, BoundValue, Term - transitively) is read in its arm of collect_clause_handles and handed to a collector", floor=30)
+    cch = prog.fn(KML + "::collect_clause_handles")
+    rep.saw(cch, len(cch.events))
+    LEAF = {AST + "::" + n for n in ("ElementRef", "MutationValue", "BoundValue", "Term")}
+    missing_leaf = [l for l in LEAF if l not in prog.adts]
+    if missing_leaf:
+        raise CheckerFault("anchor missing: %s" % missing_leaf)
+    HB = set(LEAF)
+    grew = True
+    while grew:
+        grew = False
+        for pth, a in prog.adts.items():
+            if pth.startswith(AST + "::") and pth not in HB and any(x in HB for v in a["variants"] for fd in v["fields"] for x in fd["adts"]):
+                HB.add(pth)
+                grew = True
+    # selector patterns bind variables instead of referencing handles: WHERE blocks, and the MATCH object of UPSERT
+    # (identity keys there must be literal or parameter: upsert_has_stable_identity_selector / validate_exact_object_matcher)
+    SELECTOR = {AST + "::WhereClause", AST + "::MatchValue"}
+    ch_arms = arm_regions(cch, MC)
+    sink_ids = {f.id for f in prog.fns.values() if f.crate == "anda_kip" and f.id != cch.id and any(
+        re.search(r"BTreeSet::<T, A>::insert$", e.name or "") for e in f.calls())}
+    sink_ids |= {fid for fid in prog.fns if prog.fns[fid].crate == "anda_kip" and prog.reach_set([fid]) & sink_ids}
+    for var in mc["variants"]:
+        if not var["fields"]:
+            continue
+        payload = [a for a in var["fields"][0]["adts"] if a.startswith(AST + "::")]
+        padt = prog.adts.get(payload[0]) if payload else None
+        if padt is None or padt["kind"] != "Struct":
+            continue
+        for fd in padt["variants"][0]["fields"]:
+            hb = set(fd["adts"]) & HB
+            if not hb:
+                continue
+            if hb <= SELECTOR:
+                rep.note("selector-field:%s.%s" % (var["name"], fd["name"]), "binding position, not a reference")
+                continue
+            Rg = set(ch_arms.get(var["name"], ()))
+            dests = field_read_dests(cch, Rg, fd["name"])
+            ok = False
+            if dests:
+                der = cch.derived_locals([d for d, _ in dests])
+                for e in cch.calls():
+                    if e.block in Rg and any(core.op_place(a) is not None and core.op_place(a).l in der for a in e.args):
+                        nodes = set(prog.callee_nodes(e))
+                        if nodes & sink_ids or re.search(r"BTreeSet::<T, A>::insert$", e.name or ""):
+                            ok = True
+            rep.ob("R16.6", "resolved|%s.%s" % (var["name"], fd["name"]), ok,
+                   "%s.%s (%s) can spell a ?handle but collect_clause_handles never hands it to a collector in the %s arm: an unbound (or misspelt) "
+                   "handle there is accepted" % (var["name"], fd["name"], "/".join(sorted(x.rsplit("::", 1)[1] for x in hb)), var["name"]),
+                   cch.file + ":%d" % cch.line)
+
     rep.rule("R16.5", "ASSERT expands to exactly EnsureProposition + CreateAssertion (+ SupersedeAssertion); missing by / mode refused", floor=3)
     af = prog.fn(KML + "::assert_statement")
     rep.saw(af, len(af.events))
